@@ -548,6 +548,9 @@ func (m *Machine) call(caller *frame, site ssa.Instruction, fn value, args []val
 		return m.callBuiltin(caller, ci, fn, args)
 	case *opaqueMethod:
 		msig := fn.meth.Type().(*types.Signature)
+		if fn.o.from == "reflectlite.TypeOf" && fn.meth.Name() == "Comparable" {
+			return m.ts.Bool(true)
+		}
 		m.passCtx = ctxArg(msig, args)
 		r := m.externalResult(msig, "method "+fn.meth.FullName()+" on opaque from "+fn.o.from, fn.o.noop)
 		m.passCtx = nil
